@@ -168,6 +168,41 @@ def fam_failing(rng):
     return p, [{"edits": edits}]
 
 
+def case_detachrun(seed: int) -> dict:
+    """A step that is RUNNING **and detached** when the director dies: the sub-plan p1.py defines
+    `slow`, then amends the output of `gen` (a step of plan.py) which is not built yet: p1.py is
+    deferred; with two job slots `slow` and `gen` start; `gen` ends first (schedule), p1.py is
+    dispatched again and its reset_for_rerun detaches the products of its first pass, `slow` among
+    them, while the command of `slow` still runs.  Until p1.py defines `slow` again every kill
+    leaves a detached RUNNING row (what `Workflow.steps(state)` does not return)."""
+    rng = random.Random(f"c05-detachrun-{seed}")
+    sub = [{"op": "step", "label": "slow", "out": ["slow.out"]},
+           {"op": "amend", "inp": ["gen.txt"]},
+           {"op": "read", "paths": ["gen.txt"]},
+           {"op": "step", "label": "late", "inp": ["gen.txt"], "out": ["late.out"]}]
+    plan = [{"op": "static", "paths": ["p1.py", "g.in"]},
+            {"op": "step", "label": "gen", "inp": ["g.in"], "out": ["gen.txt"]},
+            {"op": "plan", "label": "./p1.py"}]
+    p = _proj({"g.in": "g\n"}, plan, scripts={"p1.py": sub},
+              commands={"slow": _auto(rng.randint(1, 2)), "gen": _auto(1)})
+    order = ["end:./plan.py", "end:./p1.py", "end:gen", "end:./p1.py", "end:slow"]
+    return {"name": "detachrun", "seed": seed, "project": p.to_json(), "history": [],
+            "build": {"njob": 2, "schedule": {"order": order, "points": ["end"]}}}
+
+
+def detached_window_points(ref: e3.BuildResult) -> list:
+    """Directed points for ``case_detachrun``: after the commit that ends the launch of every command
+    and before every define_step commit (between the second launch of p1.py and its define_step of
+    `slow` the step is RUNNING and detached)."""
+    pts = []
+    for k, (site, _wrote) in enumerate(ref.commit_points, start=1):
+        if site == "Executor._run_command":
+            pts.append({"kind": "commit", "k": k, "when": "after"})
+        elif site == "DirectorHandler.define_step":
+            pts.append({"kind": "commit", "k": k, "when": "before"})
+    return pts
+
+
 FAMILIES = [("chain", fam_chain), ("diamond", fam_diamond), ("subplan", fam_subplan),
             ("amend", fam_amend), ("optional", fam_optional), ("drop", fam_drop),
             ("newstatic", fam_newstatic), ("failing", fam_failing)]
@@ -259,6 +294,8 @@ def make_case(name: str, seed: int) -> dict:
     Three seeds out of four interrupt the LAST build of the history (an incremental build with
     something to rerun, delete or revert), the fourth interrupts the first build of a fresh project."""
     rng = random.Random(f"c05-{name}-{seed}")
+    if name == "detachrun":
+        return case_detachrun(seed)
     if name == "gen":
         from harness import e3_gen
         project, history = e3_gen.gen_case(seed, max_phases=2)
@@ -349,7 +386,7 @@ CLEANUP_SITES = ("revert_optional_steps", "_revert_optional_steps", "Builder.fin
                  "Scheduler.build_completed") + tuple(cw.REPORT_SITES)
 
 
-def cleanup_points(ref: e3.BuildResult, nremovals: int, max_removals: int = 8) -> list:
+def cleanup_points(ref: e3.BuildResult, nremovals: int, max_removals: int = 5) -> list:
     """Directed points for the end-of-build transactions (report_unbuilt and its helpers,
     revert_optional_steps, the delete_detached transaction of Builder.finalize, build_completed):
     before and after each, and before each of the first ``max_removals`` removals of
@@ -866,6 +903,8 @@ def run_job(job: dict) -> dict:
         pts = points_of(ref) + [{"kind": "removal", "k": k} for k in range(1, len(removals) + 1)]
         if job.get("points") == "cleanup":
             pts = cleanup_points(ref, len(removals))
+        elif job.get("points") == "detached":
+            pts = detached_window_points(ref)
         elif job.get("points") is not None:
             pts = job["points"]
         elif job.get("sample") is not None:
